@@ -919,3 +919,67 @@ func genDeciders(repo, out string) {
 	b.WriteString("end Hk.Gen\n")
 	must(os.WriteFile(filepath.Join(out, "Deciders.lean"), []byte(b.String()), 0o644))
 }
+
+// genEgressGates reads the delivery path of the push dispatcher as source-order sequences: HTTPDeliverer.Deliver and
+// checkRedirect (calls of the policy check, request construction, signing and the HTTP client; returns) and
+// checkEgressPolicyURL (the conditions of its if / switch statements by source text; returns).
+func genEgressGates(repo, out string) {
+	names := map[string]bool{"checkEgressPolicy": true, "checkEgressPolicyURL": true, "NewRequestWithContext": true, "NewRequest": true,
+		"applyDeliverySigning": true, "Do": true, "resolveHostIPs": true, "isAllowedIP": true, "matchEgressRules": true}
+	type target struct{ file, fn string }
+	var rows []string
+	for _, t := range []target{{"internal/dispatcher/http_deliverer.go", "Deliver"}, {"internal/dispatcher/http_deliverer.go", "checkRedirect"},
+		{"internal/dispatcher/egress.go", "checkEgressPolicyURL"}} {
+		path := filepath.Join(repo, t.file)
+		fset, f := parseFile(path)
+		src, err := os.ReadFile(path)
+		check(err)
+		text := func(n ast.Node) string {
+			return strings.Join(strings.Fields(string(src[fset.Position(n.Pos()).Offset:fset.Position(n.End()).Offset])), " ")
+		}
+		fd := findFunc(f, t.fn)
+		if fd == nil || fd.Body == nil {
+			check(fmt.Errorf("%s: no %s", t.file, t.fn))
+		}
+		type ev struct {
+			pos        int
+			kind, name string
+		}
+		var evs []ev
+		ast.Inspect(fd.Body, func(n ast.Node) bool {
+			switch x := n.(type) {
+			case *ast.FuncLit:
+				return false
+			case *ast.ReturnStmt:
+				evs = append(evs, ev{fset.Position(x.Pos()).Offset, "return", ""})
+			case *ast.IfStmt:
+				c := text(x.Cond)
+				if strings.Contains(c, "policy.") || strings.Contains(c, "isAllowedIP") || strings.Contains(c, "len(via)") {
+					evs = append(evs, ev{fset.Position(x.Cond.Pos()).Offset, "if", c})
+				}
+			case *ast.CallExpr:
+				name := ""
+				switch fn := x.Fun.(type) {
+				case *ast.Ident:
+					name = fn.Name
+				case *ast.SelectorExpr:
+					name = fn.Sel.Name
+				}
+				if names[name] {
+					evs = append(evs, ev{fset.Position(x.Pos()).Offset - 1, "call", name}) // a call inside a condition comes before the condition's own event
+				}
+			}
+			return true
+		})
+		sort.SliceStable(evs, func(i, j int) bool { return evs[i].pos < evs[j].pos })
+		var xs []string
+		for _, e := range evs {
+			xs = append(xs, fmt.Sprintf("(%s, %s)", leanStr(e.kind), leanStr(e.name)))
+		}
+		rows = append(rows, fmt.Sprintf("  (%s, [%s])", leanStr(t.fn), strings.Join(xs, ", ")))
+	}
+	var b strings.Builder
+	b.WriteString("/- GENERATED by /verif/extract — the push delivery path (HTTPDeliverer.Deliver, checkRedirect, checkEgressPolicyURL) as source-order event sequences. do not edit. -/\nnamespace Hk.Gen\n\n")
+	b.WriteString("def egressEvents : List (String × List (String × String)) := [\n" + strings.Join(rows, ",\n") + "]\n\nend Hk.Gen\n")
+	must(os.WriteFile(filepath.Join(out, "EgressGates.lean"), []byte(b.String()), 0o644))
+}
